@@ -49,6 +49,38 @@ def rule_removal_is_a_filter(ctx):
     return n
 
 
+def rule_markings_normalised(ctx):
+    """Every operation that takes a `marking` argument accepts marking-definition OBJECTS as well as identifiers (and a single
+    one as well as a list): it reduces the argument with utils.convert_to_marking_list before comparing it with the identifiers
+    the object stores.  Sibling agreement over the two implementation modules: a function that compares / stores `marking`
+    after another normalisation (convert_to_list keeps the objects) answers False for is_marked(obj, TLP_RED) right after
+    add_markings(obj, TLP_RED)."""
+    run = ctx.run
+    prog = ctx.prog
+    R = "C07.normal-form"
+    n = 0
+    for fi in sorted((f for f in prog.functions.values() if f.module.name in (OBJ, GRANULAR) and f.cls is None and f.parent_func is None),
+                     key=lambda f: f.id):
+        if "marking" not in fi.params:
+            continue
+        n += 1
+        norm_calls = [a_ for a_ in body_walk(fi.node) if isinstance(a_, ast.Assign) and norm(a_.targets[0]) == "marking"
+                      and isinstance(a_.value, ast.Call)]
+        uses_direct = [x for x in body_walk(fi.node) if isinstance(x, ast.Name) and x.id == "marking" and isinstance(x.ctx, ast.Load)]
+        # pure delegation: `marking` only appears as an argument of calls to siblings
+        only_passed = all(isinstance(getattr(x, "parent", None), (ast.Call, ast.keyword)) and not (
+            isinstance(x.parent, ast.Call) and call_simple_name(x.parent) in ("convert_to_list", "convert_to_marking_list"))
+            for x in uses_direct) and not norm_calls
+        ok = only_passed or (bool(norm_calls) and all(call_simple_name(a_.value) == "convert_to_marking_list" for a_ in norm_calls))
+        run.check(ok, R, key(fi.module.relpath, fi.qualname, "marking-argument-reduced-to-identifiers"),
+                  "the `marking` argument is used after a normalisation other than convert_to_marking_list: marking-definition objects "
+                  "are not reduced to their ids, so the operation disagrees with its siblings for the object form of a marking",
+                  file=fi.module.relpath, line=fi.node.lineno, function=fi.qualname,
+                  expected="marking = utils.convert_to_marking_list(marking)", found=[short(a_, 70) for a_ in norm_calls])
+    if n < 6:
+        raise AnalysisError("fewer than 6 marking operations with a `marking` parameter found (%d)" % n)
+
+
 def run(ctx):
     run = ctx.run
     run.explanation = (
@@ -77,6 +109,7 @@ def run(ctx):
     ctx.do(rule_groupby_sorted, "C07.iterator-pitfalls", ("stix2.markings",))
     ctx.do(rule_single_use_iterators, "C07.iterator-pitfalls", ("stix2.markings",))
     ctx.do(rule_removal_is_a_filter)
+    ctx.do(rule_markings_normalised)
     # whether a selector addresses something is decided by the walk of the object: the same walk rules as C08
     from . import C08
     ctx.do(C08.rule_truthiness, rule_id="C07.validate-first")
@@ -149,8 +182,11 @@ def rule_forward(ctx):
     cg = get_callgraph(prog)
     R = "C07.forward"
     n = 0
-    for name in API_FUNCS:
-        fi = prog.func("%s::%s" % (API, name))
+    callers = [prog.func("%s::%s" % (API, name)) for name in API_FUNCS]
+    # ... and the delegations INSIDE the two implementation modules (is_marked -> get_markings, set_markings -> clear / add)
+    callers += sorted((f for f in prog.functions.values() if f.module.name in (OBJ, GRANULAR) and f.cls is None and f.parent_func is None),
+                      key=lambda f: f.id)
+    for fi in callers:
         rel = fi.module.relpath
         fl = flow_of(fi)
         for call in cg.calls_in(fi):
